@@ -1380,20 +1380,20 @@ Definition sz_int : list (N * sz) :=
    (6, {| z_buf := 52; z_est := 4148; z_total := 328 |}); (8, {| z_buf := 68; z_est := 4164; z_total := 344 |})].
 Definition sz_blob : list (N * sz) := [(50, {| z_buf := 59; z_est := 4155; z_total := 352 |})].
 Definition canary : call :=
-  {| c_method := MBlob; c_adv := AdvNone; c_wish := WInline; c_x := 9;
+  {| c_method := MBlob; c_dyn := false; c_adv := AdvNone; c_wish := WInline; c_x := 9;
      c_script := {| sc_fail := false; sc_var := 0; sc_n := 50; sc_turns := [] |}; c_items := []; c_release_now := true |}.
 Definition emit (rows : N) (v : Z) : turn := {| t_rows := rows; t_value := v; t_act := AEmit |}.
 
 (* before 6a8fa9d: a pointer request for a stream method on a connection without a segment *)
 Definition witness_drain : input :=
   {| i_data := 16384; i_gate := 48; i_szi := sz_int; i_szb := sz_blob;
-     i_calls := [ {| c_method := MExch; c_adv := AdvNone; c_wish := WPtr; c_x := 5;
+     i_calls := [ {| c_method := MExch; c_dyn := false; c_adv := AdvNone; c_wish := WPtr; c_x := 5;
                      c_script := {| sc_fail := false; sc_var := 0; sc_n := 0; sc_turns := [emit 8 1] |};
                      c_items := [ {| it_wish := WInline; it_rows := 2; it_val := 1 |} ]; c_release_now := true |};
                   canary ] |}.
 Definition witness_drain_empty : input :=
   {| i_data := 16384; i_gate := 48; i_szi := sz_int; i_szb := sz_blob;
-     i_calls := [ {| c_method := MProd; c_adv := AdvNone; c_wish := WPtr; c_x := 5;
+     i_calls := [ {| c_method := MProd; c_dyn := false; c_adv := AdvNone; c_wish := WPtr; c_x := 5;
                      c_script := {| sc_fail := false; sc_var := 0; sc_n := 0; sc_turns := [] |};
                      c_items := []; c_release_now := true |};
                   canary ] |}.
@@ -1401,7 +1401,7 @@ Definition witness_drain_empty : input :=
 Definition witness_input : input :=
   {| i_data := 16384; i_gate := 48; i_szi := sz_int; i_szb := sz_blob;
      i_calls := [ canary;
-                  {| c_method := MExch; c_adv := AdvNone; c_wish := WInline; c_x := 1;
+                  {| c_method := MExch; c_dyn := false; c_adv := AdvNone; c_wish := WInline; c_x := 1;
                      c_script := {| sc_fail := false; sc_var := 0; sc_n := 0; sc_turns := [emit 8 1; emit 2 2; emit 8 3] |};
                      c_items := [ {| it_wish := WPtr; it_rows := 8; it_val := 2 |}; {| it_wish := WInline; it_rows := 6; it_val := 1 |};
                                   {| it_wish := WPtr; it_rows := 2; it_val := 5 |} ]; c_release_now := true |};
@@ -1483,9 +1483,9 @@ Qed.
 Definition example_input : input :=
   {| i_data := 1000 + 4164; i_gate := 48; i_szi := sz_int;
      i_szb := [(50, {| z_buf := 59; z_est := 4155; z_total := 352 |}); (100, {| z_buf := 109; z_est := 4205; z_total := 400 |})];
-     i_calls := [ {| c_method := MBlob; c_adv := AdvGood; c_wish := WPtr; c_x := 3;
+     i_calls := [ {| c_method := MBlob; c_dyn := false; c_adv := AdvGood; c_wish := WPtr; c_x := 3;
                      c_script := {| sc_fail := false; sc_var := 0; sc_n := 100; sc_turns := [] |}; c_items := []; c_release_now := false |};
-                  {| c_method := MExch; c_adv := AdvNone; c_wish := WPtr; c_x := 1;
+                  {| c_method := MExch; c_dyn := false; c_adv := AdvNone; c_wish := WPtr; c_x := 1;
                      c_script := {| sc_fail := false; sc_var := 0; sc_n := 0; sc_turns := [emit 8 1; emit 8 2] |};
                      c_items := [ {| it_wish := WPtr; it_rows := 8; it_val := 2 |}; {| it_wish := WPtr; it_rows := 6; it_val := 1 |} ];
                      c_release_now := true |};
@@ -1517,3 +1517,12 @@ Proof.
   pose proof (after_release_perm current g cs) as AR. cbv zeta in AR.
   apply Permutation_length in AR. unfold offs in AR. rewrite map_length in AR. rewrite AR. exact TO.
 Qed.
+
+(* the dynamic registration of a stream method changes nothing on a pipe *)
+Definition set_dyn (b : bool) (c : call) : call :=
+  {| c_method := c_method c; c_dyn := b; c_adv := c_adv c; c_wish := c_wish c; c_x := c_x c;
+     c_script := c_script c; c_items := c_items c; c_release_now := c_release_now c |}.
+Lemma dyn_same v g st c b : serve_call v g st (set_dyn b c) = serve_call v g st c.
+Proof. reflexivity. Qed.
+Lemma dyn_same_plain c b : plain_answer (set_dyn b c) = plain_answer c.
+Proof. reflexivity. Qed.
